@@ -596,6 +596,27 @@ def decodeJsonl (canon : List Char → Option (List Char)) (inp : List Char) : E
   | .ok tss => decodeJsonlToks canon tss
   | .error e => .error e
 
+/-! ## the line break of a JSON / JSON Lines file -/
+
+/-- specification of `jsonLineBreakDetector` (lib/query/load_view.go), on bytes: the first CR LF, LF or CR
+    outside strings, "" when there is none; `inString`, `escaped` = where the scan stands.  The detector
+    itself is regenerated from /repo (Csvq.Gen.EncFacts) and proved equal to this for all byte strings. -/
+def firstBreak : Bool → Bool → List Nat → String
+  | _, _, [] => ""
+  | true, true, _ :: cs => firstBreak true false cs
+  | true, false, c :: cs =>
+    if c = 92 then firstBreak true true cs
+    else if c = 34 then firstBreak false false cs
+    else firstBreak true false cs
+  | false, _, c :: cs =>
+    if c = 34 then firstBreak true false cs
+    else if c = 10 then "LF"
+    else if c = 13 then
+      match cs with
+      | 10 :: _ => "CRLF"
+      | _ => "CR"
+    else firstBreak false false cs
+
 /-! ## what the property expects back -/
 
 def canonVal : JVal → DCell
